@@ -1,0 +1,66 @@
+//go:build verif
+
+package net
+
+import (
+	"net"
+	"sync"
+	"time"
+)
+
+// VerifPacketConn is a simulated datagram socket supplied by the external
+// simulation harness. It replaces the kernel socket below UDPConn.
+type VerifPacketConn interface {
+	LocalAddr() net.Addr
+	// RemoteAddr returns nil for an unconnected socket.
+	RemoteAddr() net.Addr
+	Close() error
+	NetConn() net.Conn
+	WriteTo(b []byte, cm *ControlMessage, dst net.Addr) (int, error)
+	WriteToAddr(iface *net.Interface, src *net.IP, multicastHopLimit int, raddr *net.UDPAddr, buffer []byte) error
+	ReadFrom(b []byte) (n int, cm *ControlMessage, src net.Addr, err error)
+	JoinGroup(ifi *net.Interface, group net.Addr) error
+	LeaveGroup(ifi *net.Interface, group net.Addr) error
+	IsIPv6() bool
+}
+
+type verifUDPConn = VerifPacketConn
+
+var verifUDPConns sync.Map // *UDPConn -> VerifPacketConn
+
+func verifUDP(c *UDPConn) verifUDPConn {
+	if v, ok := verifUDPConns.Load(c); ok {
+		return v.(VerifPacketConn)
+	}
+	return nil
+}
+
+type verifPacketConnAdapter struct {
+	VerifPacketConn
+}
+
+func (verifPacketConnAdapter) SetWriteDeadline(time.Time) error           { return nil }
+func (verifPacketConnAdapter) SetMulticastInterface(*net.Interface) error { return nil }
+func (verifPacketConnAdapter) SetMulticastHopLimit(int) error             { return nil }
+func (verifPacketConnAdapter) SetMulticastLoopback(bool) error            { return nil }
+func (verifPacketConnAdapter) SupportsControlMessage() bool               { return true }
+
+// NewVerifUDPConn creates a UDPConn over a simulated socket.
+func NewVerifUDPConn(network string, pc VerifPacketConn, opts ...UDPOption) *UDPConn {
+	cfg := DefaultUDPConnConfig
+	for _, o := range opts {
+		o.ApplyUDP(&cfg)
+	}
+	c := &UDPConn{
+		network:    network,
+		packetConn: verifPacketConnAdapter{pc},
+		errors:     cfg.Errors,
+	}
+	verifUDPConns.Store(c, pc)
+	return c
+}
+
+// VerifForgetUDPConn removes the registry entry of a simulated connection.
+func VerifForgetUDPConn(c *UDPConn) {
+	verifUDPConns.Delete(c)
+}
